@@ -438,8 +438,23 @@ def polar_verdict(got, want):
 
 def polar_oracle(interp, node, fr, value):
     """principal branch: Re(z1) > 0, nothing singular"""
-    text = ast.unparse(node)
-    return False
+    # every elementary test of the data (a comparison, a membership of the singular set) is answered 'no'; negations and
+    # any / all / and / or of such tests follow from that - the answer does not depend on how the condition is spelled
+    def ev(e):
+        e = e.expr if isinstance(e, Unk) else e
+        if isinstance(e, bool):
+            return e
+        if isinstance(e, tuple) and e:
+            if e[0] == 'not':
+                return not ev(e[1])
+            if e[0] in ('and', 'or'):
+                a_, b_ = ev(e[1]), ev(e[2])
+                return (a_ and b_) if e[0] == 'and' else (a_ or b_)
+            if e[0] in ('any', 'all') and len(e) > 1 and isinstance(e[1], (list, tuple)):
+                parts = [ev(x) for x in e[1]]
+                return all(parts) if e[0] == 'all' else any(parts)
+        return False
+    return ev(value)
 
 
 def logs(ctx, mc):
